@@ -130,6 +130,31 @@ MUTATIONS = [
     ("tlexport/main.py", '        if session.matches_session_dgram(packet.ip_src, packet.ip_dst, packet.sport, packet.dport):\n            session.handle_packet(packet, dcid, quic_version)\n            return\n', '        if session.matches_session_dgram(packet.ip_src, packet.ip_dst, packet.sport, packet.dport):\n            session.handle_packet(packet, dcid, quic_version)\n            continue\n', 'main.quic_loop: 4-tuple match goes on to the next session'),
     ("tlexport/main.py", '        quic_sessions.append(new_session)\n        new_session.handle_packet(packet, dcid, quic_version)', '        quic_sessions.append(new_session)', 'main.quic_loop: first packet of a new session not processed'),
     ("tlexport/main.py", '                    candidates = session.server_cids\n                else:\n                    candidates = session.client_cids', '                    candidates = session.client_cids\n                else:\n                    candidates = session.server_cids', 'main.quic_loop: sender-side CIDs as candidates (fragment)'),
+    # group Dsb: dpkt_dsb.py DecryptionSecretBlock.unpack
+    ("tlexport/dpkt_dsb.py", '        self.pkt_data = buf[po:po + self.secrets_length]', '        self.pkt_data = buf[po:po + dpng._align32b(self.secrets_length)]', 'DecryptionSecretBlock: padding returned with the secrets'),
+    ("tlexport/dpkt_dsb.py", '        po = self.__hdr_len__ - 4  # offset of pkt_data', '        po = self.__hdr_len__  # offset of pkt_data', 'DecryptionSecretBlock: data offset 4 bytes late'),
+    ("tlexport/dpkt_dsb.py", '        dpkt.Packet.unpack(self, buf)\n        if self.len > len(buf):\n            raise dpkt.NeedData\n\n        # packet data\n        po = self.__hdr_len__ - 4  # offset of pkt_data', '        dpkt.Packet.unpack(self, buf)\n        if self.len >= len(buf):\n            raise dpkt.NeedData\n\n        # packet data\n        po = self.__hdr_len__ - 4  # offset of pkt_data', 'DecryptionSecretBlock: a block that fills the buffer exactly is refused'),
+    ("tlexport/dpkt_dsb.py", '        opts_offset = po + dpng._align32b(self.secrets_length)\n        self._do_unpack_options(buf, opts_offset)', '        opts_offset = po + self.secrets_length\n        self._do_unpack_options(buf, opts_offset)', 'DecryptionSecretBlock: options read from the padding'),
+    # group TlsKeys: session.py key selection
+    ("tlexport/session.py", '            if secret.client_random.lower() == self.client_random.hex().lower():', '            if secret.client_random == self.client_random.hex().lower():', 'find_session_secrets: upper-case client randoms of the key log no longer match'),
+    ("tlexport/session.py", '                    is_handshake_secret += 2\n                secrets.append(secret)', '                    is_handshake_secret += 2\n                    secrets.append(secret)', 'find_session_secrets: only the server handshake secret is kept'),
+    ("tlexport/session.py", '                secrets.append(secret)\n\n        if is_handshake_secret < 2', '                secrets.insert(0, secret)\n\n        if is_handshake_secret < 2', 'find_session_secrets: reverse key-log order'),
+    ("tlexport/session.py", 'secret_list = [secret for secret in secret_list if secret.label in ("CLIENT_RANDOM", "RSA")]', 'secret_list = [secret for secret in secret_list if secret.label in ("CLIENT_RANDOM",)]', 'generate_keys select: RSA lines dropped'),
+    ("tlexport/session.py", '        if tls_version != TlsVersion.TLS13:\n            # up to TLS 1.2', '        if tls_version == TlsVersion.TLS12:\n            # up to TLS 1.2', 'generate_keys select: the master-secret filter for TLS 1.2 only'),
+    ("tlexport/session.py", '                          f"Client Port: {self.client_port}")\n            self.can_decrypt = False\n            return\n\n        try:', '                          f"Client Port: {self.client_port}")\n            return\n\n        try:', 'generate_keys select: can_decrypt stays set without secrets'),
+    ("tlexport/session.py", '        elif algo in [TripleDES, IDEA]:\n            block_size = 64', '        elif algo in [TripleDES]:\n            block_size = 64', 'generate_keys block_size: IDEA without a block size'),
+    ("tlexport/session.py", '        if algo in [AES, AESCCM, AESGCM, Camellia]:\n            block_size = 128', '        if algo in [AES, AESCCM, AESGCM, Camellia]:\n            block_size = 16', 'generate_keys block_size: bytes instead of bits'),
+    ("tlexport/session.py", '                                   self.tls_version, cipher_suite["KeyLength"], cipher_suite["MAC"].digest_size,', '                                   self.tls_version, cipher_suite["MAC"].digest_size, cipher_suite["KeyLength"],', 'generate_keys install: key length and MAC length swapped'),
+    ("tlexport/session.py", '                                   cipher_suite["TagLength"], block_size, self.extensions, self.compression_method)', '                                   cipher_suite["TagLength"], block_size // 8, self.extensions, self.compression_method)', 'generate_keys install: block length in bytes'),
+    # group Opts: main.py options
+    ("tlexport/main.py", '        i = i.replace(",", "") # if somebody is using a "," as seperator\n', '', 'get_port_map: commas kept'),
+    ("tlexport/main.py", '        output_port = int(split[1])', '        output_port = int(split[-1])', 'get_port_map: output port is the last field'),
+    ("tlexport/main.py", '        port_map[server_port] = output_port', '        port_map[output_port] = server_port', 'get_port_map: map inverted'),
+    ("tlexport/main.py", '        split = i.split(":")\n        server_port = int(split[0])\n        output_port = int(split[1])', '        split = i.split(":")\n        output_port = int(split[1])\n        server_port = int(split[0])', 'get_port_map: output port converted first (IndexError before ValueError)'),
+    ("tlexport/main.py", '            setattr(namespace, self.dest, ["443:8080"])', '            setattr(namespace, self.dest, ["443:8443"])', 'MapPortsAction: another value for a bare -m'),
+    ("tlexport/main.py", "        keep_original_ports = False  # If -m is used, we don't keep original ports", "        keep_original_ports = bool(values)  # If -m is used, we don't keep original ports", 'MapPortsAction: a bare -m keeps the original ports'),
+    ("tlexport/main.py", 'server_ports = [443, 44330]', 'server_ports = [443]', 'server_ports: built-in list without 44330'),
+    ("tlexport/main.py", '    server_ports.extend([int(x) for x in args.serverports])', '    server_ports.extend([int(x) for x in args.serverports[1:]])', 'server_ports: first -p value dropped'),
     # group Keylog: keylog_reader.py
     ("tlexport/keylog_reader.py", '        self.client_random = split[1]\n        self.value = split[2]', '        self.client_random = split[2]\n        self.value = split[1]', 'Key: client random and value swapped'),
     ("tlexport/keylog_reader.py", '        split = key_line.split(" ")', '        split = key_line.split("\\t")', 'Key: line split at tabs'),
@@ -261,6 +286,12 @@ MUTATIONS = [
 REWRITES = [
     ("tlexport/decryptor.py", [('        self.get_cipher_type()\n        self.parse_keys(keys)\n', '        self.parse_keys(keys)\n        self.get_cipher_type()\n')], 'Decryptor.__init__: parse_keys before get_cipher_type'),
     ("tlexport/quic/quic_session.py", [('            case b"\\x13\\x01":\n                self.hash_fun = SHA256\n                self.cipher = AESGCM\n                self.key_length = 16\n\n            # TLS_AES_256_GCM_SHA384\n            case b"\\x13\\x02":\n                self.hash_fun = SHA384\n                self.cipher = AESGCM\n                self.key_length = 32\n', '            case b"\\x13\\x02":\n                self.hash_fun = SHA384\n                self.cipher = AESGCM\n                self.key_length = 32\n\n            case b"\\x13\\x01":\n                self.hash_fun = SHA256\n                self.cipher = AESGCM\n                self.key_length = 16\n')], 'set_tls_decryptors: the first two cases in the other order'),
+    ("tlexport/dpkt_dsb.py", [('        dpkt.Packet.unpack(self, buf)\n        if self.len > len(buf):\n            raise dpkt.NeedData\n\n        # packet data', '        dpkt.Packet.unpack(self, buf)\n        if len(buf) < self.len:\n            raise dpkt.NeedData\n\n        # packet data')], 'DecryptionSecretBlock: `len(buf) < self.len`'),
+    ("tlexport/dpkt_dsb.py", [('        opts_offset = po + dpng._align32b(self.secrets_length)\n        self._do_unpack_options(buf, opts_offset)', '        self._do_unpack_options(buf, po + dpng._align32b(self.secrets_length))')], 'DecryptionSecretBlock: options offset inline'),
+    ("tlexport/session.py", [('            if secret.client_random.lower() == self.client_random.hex().lower():', '            if self.client_random.hex().lower() == secret.client_random.lower():')], 'find_session_secrets: comparison operands swapped'),
+    ("tlexport/session.py", [('        if len(secret_list) == 0:\n            logging.error(f"Missing Secrets', '        if 0 == len(secret_list):\n            logging.error(f"Missing Secrets')], 'generate_keys select: `0 == len(...)`'),
+    ("tlexport/main.py", [('        i = i.replace(",", "") # if somebody is using a "," as seperator\n        split = i.split(":")', '        split = i.replace(",", "").split(":")')], 'get_port_map: comma removal and split in one expression'),
+    ("tlexport/main.py", [('        if values:\n            setattr(namespace, self.dest, values)', '        if len(values) != 0:\n            setattr(namespace, self.dest, values)')], 'MapPortsAction: `len(values) != 0` for `values`'),
     ("tlexport/keylog_reader.py", [('    for line in lines:\n        key = get_key_from_line(line)\n        if key is not None:\n            keys.append(key)', '    for line in lines:\n        key = get_key_from_line(line)\n        if key is None:\n            continue\n        keys.append(key)')], 'get_keys_from_string: `continue` on a line that is no key'),
     ("tlexport/main.py", [('    if packet.dport in server_ports or packet.sport in server_ports:\n        sessions.append(', '    if packet.sport in server_ports or packet.dport in server_ports:\n        sessions.append(')], 'main.handle_packet: port tests swapped'),
     ("tlexport/quic/quic_session.py", [('                if isserver:\n                    self.server_cids.add(frame.connection_id)\n                else:\n                    self.client_cids.add(frame.connection_id)', '                if not isserver:\n                    self.client_cids.add(frame.connection_id)\n                else:\n                    self.server_cids.add(frame.connection_id)')], 'handle_frame: NEW_CONNECTION_ID branches swapped under `not`'),
@@ -341,6 +372,12 @@ def group_of(what):
     if fn in ("parse_keys", "Decryptor.__init__"):
         return ["Decrypt2"]
 
+    if fn == "DecryptionSecretBlock":
+        return ["Dsb"]
+    if fn in ("find_session_secrets", "generate_keys select", "generate_keys block_size", "generate_keys install"):
+        return ["TlsKeys"]
+    if fn in ("get_port_map", "MapPortsAction", "server_ports"):
+        return ["Opts"]
     if fn in ("Key", "get_key_from_line", "get_keys_from_string"):
         return ["Keylog"]
     if fn.startswith("main."):
